@@ -12,14 +12,14 @@ using namespace vh;
 using namespace CDNS;
 
 // ------------------------------------------------------------------ operations
-enum OpK { QR, AEC, MM, WB, ROTX, ROTN, ROTS, ACT, ADDBP };
+enum OpK { QR, AEC, MM, WB, ROTX, ROTN, ROTS, ACT, ADDBP, EDIT };
 struct Op { int k; int a; int sv; };
 static std::string tok(const Op& o) {
-    static const char* n[] = {"qr", "aec", "mm", "wb", "rotx", "rotn", "rots", "act", "addbp"};
-    std::string s = n[o.k]; if (o.k <= MM || o.k == ACT) s += std::to_string(o.a); if (o.k <= MM && o.sv) s += "s" + std::to_string(o.sv); return s; }
+    static const char* n[] = {"qr", "aec", "mm", "wb", "rotx", "rotn", "rots", "act", "addbp", "edit"};
+    std::string s = n[o.k]; if (o.k <= MM || o.k == ACT || o.k == EDIT) s += std::to_string(o.a); if (o.k <= MM && o.sv) s += "s" + std::to_string(o.sv); return s; }
 static bool parse_tok(const std::string& t, Op& o) {
-    static const char* n[] = {"qr", "aec", "mm", "wb", "rotx", "rotn", "rots", "act", "addbp"};
-    int best = -1; for (int i = 0; i < 9; i++) if (t.rfind(n[i], 0) == 0 && (best < 0 || strlen(n[i]) > strlen(n[best]))) best = i;
+    static const char* n[] = {"qr", "aec", "mm", "wb", "rotx", "rotn", "rots", "act", "addbp", "edit"};
+    int best = -1; for (int i = 0; i < 10; i++) if (t.rfind(n[i], 0) == 0 && (best < 0 || strlen(n[i]) > strlen(n[best]))) best = i;
     if (best < 0) return false; o.k = best; o.a = 0; o.sv = 0; std::string r = t.substr(strlen(n[best]));
     size_t s = r.find('s'); if (s != std::string::npos) { o.sv = atoi(r.c_str() + s + 1); r = r.substr(0, s); } if (!r.empty()) o.a = atoi(r.c_str()); return true; }
 static std::string hist_str(const std::vector<Op>& h) { std::string s; for (auto& o : h) { if (!s.empty()) s += ","; s += tok(o); } return s; }
@@ -102,6 +102,11 @@ static bool run_history(const Cfg& cfg, const Run& run, const std::vector<Op>& h
                 snaps.push_back(snapshot(closed));
                 break; }
             case ACT: { bool m = M.set_active(o.a); bool r = E->set_active_block_parameters(o.a); if (m != r) { fail("set-active-result", "set_active_block_parameters(" + std::to_string(o.a) + ") returned " + std::to_string(r)); ok = false; } break; }
+            case EDIT: { // edit the hints of the active parameter set in place, the way an application reconfigures a running exporter
+                BlockParameters& ref_ = E->get_active_block_parameters_ref(); auto& hh = ref_.storage_parameters.storage_hints;
+                if (o.a == 0) { hh.other_data_hints = 0; hh.query_response_hints &= ~((1u << 1) | (1u << 7)); hh.query_response_signature_hints &= ~1u; }
+                else { hh.other_data_hints = 3; hh.query_response_hints = 0x3ffff; hh.query_response_signature_hints = 0x1ffff; hh.rr_hints = o.a == 2 ? 0 : 3; }
+                M.edit_active(model::from(ref_)); break; }
             case ADDBP: { unsigned mi = M.add_params(model::from(extra)); unsigned li = E->add_block_parameters(extra); if (mi != li) { fail("add-bp-index", "add_block_parameters returned " + std::to_string(li) + ", expected " + std::to_string(mi)); ok = false; } break; }
             }
         } catch (std::exception& e) { threw = true; what = e.what(); }
@@ -162,7 +167,7 @@ static bool run_history(const Cfg& cfg, const Run& run, const std::vector<Op>& h
             }
             for (size_t bi = 0; bi < rf.blocks.size(); bi++) if (!rf.blocks[bi].unreachable.empty()) fail("unreachable-table-entry|" + rf.blocks[bi].unreachable[0].substr(0, rf.blocks[bi].unreachable[0].find('[')), tag + " block " + std::to_string(bi) + ": " + rf.blocks[bi].unreachable[0] + " not referenced by any item");
             for (size_t bi = 0; bi < rf.blocks.size(); bi++) if (!rf.blocks[bi].duplicates.empty()) fail("duplicate-table-entry|" + rf.blocks[bi].duplicates[0].substr(0, rf.blocks[bi].duplicates[0].find('[')), tag + " block " + std::to_string(bi) + ": " + rf.blocks[bi].duplicates[0]);
-            R.outcome("blocks=" + std::to_string(std::min<size_t>(rf.blocks.size(), 4)));
+            R.outcome("blocks=" + std::to_string(std::min<size_t>(rf.blocks.size(), 4))); R.count("blocks_validated", rf.blocks.size());
         } else if (ld == expect_dump) R.outcome("lib-reads-what-ref-rejects");
     }
     for (auto& n : names) { unlink((n + ext()).c_str()); unlink((n + ext() + ".part").c_str()); unlink(n.c_str()); }
@@ -174,7 +179,7 @@ static bool run_history(const Cfg& cfg, const Run& run, const std::vector<Op>& h
 }
 
 // ------------------------------------------------------------------ profiles
-struct Profile { std::vector<std::string> alphabet; std::vector<Cfg> cfgs; std::vector<Run> runs; int depth_q, depth_t; };
+struct Profile { std::vector<std::string> alphabet; std::vector<Cfg> cfgs; std::vector<Run> runs; int depth_q, depth_t; bool auto_flush = false; };
 
 static Profile profile(const std::string& name, bool T) {
     Profile p;
@@ -210,7 +215,12 @@ static Profile profile(const std::string& name, bool T) {
         p.alphabet = {"qr2", "qr4", "qr3", "qr1", "mm0", "mm3", "mm1", "aec0"};
         for (int h : {0, 5, 1}) p.cfgs.push_back({"h" + std::to_string(h), {PS(10000, 1000000, h)}, PS(2, 1000, 0)});
         p.cfgs.push_back({"h5_t1", {PS(10000, 1, 5)}, PS(2, 1000, 0)});
-        p.runs = {{"", S_MEM, 0}}; p.depth_q = 4; p.depth_t = 5;
+        p.runs = {{"", S_MEM, 0}}; p.depth_q = 4; p.depth_t = 5; p.auto_flush = true;
+    } else if (name == "hints-edit") {
+        p.alphabet = {"qr0", "qr3", "aec1", "mm0", "edit0", "edit1", "edit2", "wb", "rotx", "rotn", "act1", "act0"};
+        p.cfgs.push_back({"two", {PS(2, 1000000, 0), PS(3, 1000, 0)}, PS(2, 1000, 0)});
+        p.cfgs.push_back({"one_m10000", {PS(10000, 1000000, 0)}, PS(2, 1000, 0)});
+        p.runs = {{"", S_MEM, 0}}; p.depth_q = 4; p.depth_t = 5; p.auto_flush = true;
     } else if (name == "counts") {
         p.alphabet = {"qr0s1", "qr1", "qr4", "aec1", "mm0", "mm3s2", "wb", "rotx", "rotn", "act1"};
         p.cfgs.push_back({"m2", {PS(2, 1000000, 0), PS(1, 1000, 3, true)}, PS(3, 1000, 0)});
@@ -238,6 +248,7 @@ int main(int argc, char** argv) {
         p = 0; while (p < ops.size()) { size_t e = ops.find(',', p); if (e == std::string::npos) e = ops.size(); Op o; if (e > p && parse_tok(ops.substr(p, e - p), o)) h.push_back(o); p = e + 1; }
         Run run{"", atoi(kv["sink"].c_str()), atoi(kv["comp"].c_str())};
         Pool rp(1, 60);
+        if (pf.auto_flush) h.push_back(Op{WB, 0, 0});
         rp.run(1, [&](uint64_t, Result& R) { std::vector<Viol> V; run_history(*cfg, run, h, R, V); for (auto& v : V) R.violation(a.mode + "|" + v.key, v.what, s); },
                [&](uint64_t, const std::string& d, Result& R) { R.violation(a.mode + "|" + crash_key(d), "crash: " + d.substr(0, 2000), s); }, total);
         a.finish(total); rm_rf(g_dir); return total.viol.empty() ? 0 : 1;
@@ -259,7 +270,8 @@ int main(int argc, char** argv) {
             if (a.expired()) { R.deadline_hit = true; return; }
             std::string rep = "cfg=" + cfg.name + ";sink=" + std::to_string(run.sink) + ";comp=" + std::to_string(run.comp) + ";ops=" + hist_str(h);
             set_note(rep);
-            std::vector<Viol> V; bool counted = run_history(cfg, run, h, R, V);
+            std::vector<Op> hx = h; if (pf.auto_flush) hx.push_back(Op{WB, 0, 0});
+            std::vector<Viol> V; bool counted = run_history(cfg, run, hx, R, V);
             if (!counted) { R.count("pruned_precondition"); return; }
             R.count("traces"); if (!h.empty()) R.count("nontrivial");
             for (auto& v : V) R.violation(a.mode + "|" + v.key, v.what, rep);
